@@ -418,3 +418,20 @@ package validate
 //@ func (*Result).AsError
 //@   requires r != nil
 //@   ensures[C20,C17] (result == nil) == (len(r.Errors) == 0)
+
+// ---------------------------------------------------------------------------
+// Type invariants (visible-state: assumed whenever a field of an object that is not under construction
+// by the current function is read; re-established at the exit of every function that writes such an object).
+//@ typeinv SchemaValidator: self.Options != nil && self.Schema != nil
+//@ typeinv itemsValidator: self.Options != nil && self.items != nil
+//@ typeinv HeaderValidator: self.Options != nil && self.header != nil
+//@ typeinv ParamValidator: self.Options != nil && self.param != nil
+//@ typeinv basicCommonValidator: self.Options != nil
+//@ typeinv basicSliceValidator: self.Options != nil
+//@ typeinv numberValidator: self.Options != nil
+//@ typeinv stringValidator: self.Options != nil
+//@ typeinv typeValidator: self.Options != nil
+//@ typeinv formatValidator: self.Options != nil
+//@ typeinv schemaSliceValidator: self.Options != nil
+//@ typeinv objectValidator: self.Options != nil
+//@ typeinv schemaPropsValidator: self.Options != nil
